@@ -37,9 +37,12 @@ func (node *tagSpacelessNode) Execute(ctx *ExecutionContext, writer TemplateWrit
 func tagSpacelessParser(doc *Parser, start *Token, arguments *Parser) (INodeTag, *Error) {
 	spacelessNode := &tagSpacelessNode{}
 
-	wrapper, _, err := doc.WrapUntilTag("endspaceless")
+	wrapper, endargs, err := doc.WrapUntilTag("endspaceless")
 	if err != nil {
 		return nil, err
+	}
+	if endargs.Count() > 0 {
+		return nil, endargs.Error("Arguments not allowed here.", nil)
 	}
 	spacelessNode.wrapper = wrapper
 
